@@ -330,3 +330,153 @@ func VerifC11_emptyrow() {
 		vfAssert(count(late) == 1, "direct-row-error-reported-once")
 	}
 }
+
+type vfNilPtrErr struct{}
+
+func (e *vfNilPtrErr) Error() string { return "an error value whose pointer is nil" }
+
+type vfSliceErr []int
+
+func (e vfSliceErr) Error() string { return "an error value that is a nil slice" }
+
+type vfCount11 struct{ n int }
+
+func (cb *vfCount11) UpdateProperties(po PropertyOwner) error {
+	cb.n++
+	return nil
+}
+
+type vfConstErrCB struct{ e error }
+
+func (cb vfConstErrCB) UpdateProperties(po PropertyOwner) error { return cb.e }
+
+// VerifC11_typednil: an error is whatever is not the nil interface: values whose concrete pointer or
+// slice is nil are recorded like any other, through every way an error reaches the table.
+func VerifC11_typednil() {
+	var e error
+	if vfChoice("kind", 2) == 0 {
+		e = (*vfNilPtrErr)(nil)
+	} else {
+		e = vfSliceErr(nil)
+	}
+	plain := errors.New("plain")
+	t := New()
+	t.AddHeaders("h")
+	want := 2
+	switch vfChoice("via", 5) {
+	case 0:
+		t.AddError(plain)
+		t.AddError(e)
+	case 1:
+		ec := NewErrorContainer()
+		ec.AddErrorList([]error{plain, nil, e})
+		vfAssert(len(ec.Errors()) == 2, "every-error-exactly-once")
+		t.AddErrorList(ec.Errors())
+	case 2:
+		r := NewRow()
+		r.AddError(e)
+		r.Add(NewCell("a"))
+		t.AddRow(r)
+		t.AddError(plain)
+	case 3: // a callback returns it at add time
+		vfAssert(t.RegisterPropertyCallback(t, CB_AT_ADD, CB_ON_CELL, vfConstErrCB{e}) == nil, "register-ok")
+		t.AddRowItems("a")
+		t.AddError(plain)
+	case 4: // and at render time, once per cell
+		t.AddRowItems("a")
+		counter := &vfCount11{}
+		vfAssert(t.RegisterPropertyCallback(t, CB_AT_RENDER, CB_ON_CELL, counter) == nil, "register-ok")
+		vfAssert(t.RegisterPropertyCallback(t, CB_AT_RENDER, CB_ON_CELL, vfConstErrCB{e}) == nil, "register-ok")
+		t.InvokeRenderCallbacks()
+		t.AddError(plain)
+		want = 1 + counter.n
+		vfAssert(counter.n >= 1, "render-callback-fired")
+	}
+	got := t.Errors()
+	vfAssert(len(got) == want, "every-error-exactly-once")
+	n := 0
+	for _, g := range got {
+		vfAssert(g != nil, "no-nil-entries")
+		switch x := g.(type) {
+		case *vfNilPtrErr:
+			if x == nil {
+				n++
+			}
+		case vfSliceErr:
+			if x == nil {
+				n++
+			}
+		}
+	}
+	vfAssert(n == want-1, "typed-nil-error-recorded")
+	vfObserveInt("n", len(got))
+}
+
+// VerifC11_acrossrenders: the error list only grows: what was recorded before, between and during
+// render passes is all there afterwards, each error once.
+func VerifC11_acrossrenders() {
+	t := New()
+	t.AddHeaders("h1")
+	t.AddRowItems("a")
+	var raised []error
+	fail := vfChoice("failing-render-callback", 2) == 1
+	if fail {
+		cb := &vfErrCB{name: "render", fail: true, raised: &raised}
+		vfAssert(t.RegisterPropertyCallback(t, CB_AT_RENDER_POSTCELL, CB_ON_ITSELF, cb) == nil, "register-ok")
+	}
+	e0 := errors.New("before-first-render")
+	e1 := errors.New("between-renders")
+	direct := 0
+	if vfChoice("before", 2) == 1 {
+		t.AddError(e0)
+		direct++
+	}
+	t.InvokeRenderCallbacks()
+	between := vfChoice("between", 4)
+	switch between {
+	case 1:
+		t.AddError(e1)
+		direct++
+	case 2: // a row arriving with an error of its own
+		r := NewRow()
+		r.AddError(e1)
+		r.Add(NewCell("b"))
+		t.AddRow(r)
+		direct++
+	case 3: // misuse of a separator row
+		t.AddSeparator()
+		rows := t.AllRows()
+		rows[len(rows)-1].Add(NewCell("z"))
+		direct++
+	}
+	passes := 1 + vfChoice("more-passes", 2)
+	for p := 0; p < passes; p++ {
+		t.InvokeRenderCallbacks()
+	}
+	got := t.Errors()
+	total := direct + len(raised)
+	if total == 0 {
+		vfAssert(got == nil, "nil-when-no-errors")
+		return
+	}
+	vfAssert(len(got) == total, "every-error-exactly-once")
+	count := func(e error) int {
+		k := 0
+		for _, g := range got {
+			if g == e {
+				k++
+			}
+		}
+		return k
+	}
+	if vfChoice("before", 2) == 1 {
+		vfAssert(count(e0) == 1, "earlier-table-error-still-reported-once")
+	}
+	if between == 1 || between == 2 {
+		vfAssert(count(e1) == 1, "error-recorded-between-renders-reported-once")
+	}
+	for _, e := range raised {
+		vfAssert(count(e) == 1, "raised-error-reported-once")
+	}
+	vfObserveInt("n", len(got))
+}
